@@ -416,6 +416,51 @@ def fit_cases(draw, ascent=False, supplies=("u", "w", "u", "w", "both", "none"),
     # which surplus communities die out fastest
     priors = draw(st.sampled_from([(0.0, 0.0), (0.0, 1.0), (0.0, 3.0), (0.5, 0.0), (0.5, 0.0),
                                    (0.5, 1.0), (0.5, 3.0)]))
+    priors = list(priors)
+    # documented alternative: one rate per entry (w_prior symmetric, same shape as w; u_prior
+    # of the shape of u); entries stay positive
+    rate = st.sampled_from([0.5, 1.0, 3.0])
+    if draw(st.integers(0, 4)) == 0:
+        wp = [[0.0] * K for _ in range(K)]
+        for k in range(K):
+            for q in range(k, K):
+                wp[k][q] = wp[q][k] = draw(rate)
+        priors[1] = wp
+    if not ascent and draw(st.integers(0, 5)) == 0:
+        priors[0] = [[draw(rate) for _ in range(K)] for _ in range(N)]
+    sparse_u = False
+    if supply == "u" and K >= 2 and not dying and draw(st.integers(0, 2)) == 0:
+        # hard / sparse memberships (zero entries, every row non-zero); half of the time one
+        # community has a single member.  Only hyperedges that the model can produce are kept:
+        # in an assortative model two of its nodes must share a community
+        keep = [draw(st.lists(st.booleans(), min_size=K, max_size=K)) for _ in range(N)]
+        for i in range(N):
+            if not any(keep[i]):
+                keep[i][draw(st.integers(0, K - 1))] = True
+        if draw(st.booleans()):
+            c, i0 = draw(st.integers(0, K - 1)), draw(st.integers(0, N - 1))
+            for i in range(N):
+                keep[i][c] = (i == i0)
+                if not any(keep[i]):
+                    keep[i][(c + 1) % K] = True
+        su = [[x if keep[i][k] else 0.0 for k, x in enumerate(r)] for i, r in enumerate(u)]
+
+        # row r of u belongs to the node that get_mapping() sends to r: the encoder sorts the
+        # labels, which is predicted here and verified at run time (_in_support)
+        rank = {i: r for r, i in enumerate(sorted(range(N), key=lambda i: labels[i]))}
+
+        def producible(e):
+            if not assortative:
+                return True
+            rows = [rank[i] for i in e]
+            return any(su[i][k] > 0 and su[j][k] > 0 for a, i in enumerate(rows)
+                       for j in rows[a + 1:] for k in range(K))
+        kept = [j for j, e in enumerate(edges) if producible(e)]
+        if kept:
+            u, sparse_u = su, True
+            edges = [edges[j] for j in kept]
+            if weights is not None:
+                weights = [weights[j] for j in kept]
     case = {
         "kind": uni["kind"], "labels": labels, "edges": edges, "weights": weights,
         "add_all_nodes": draw(st.booleans()),
@@ -425,6 +470,7 @@ def fit_cases(draw, ascent=False, supplies=("u", "w", "u", "w", "both", "none"),
         "max_hye": draw(st.sampled_from(["none", "none", "D", "D+1"])),
         "pass_K": draw(st.booleans()),
         "seed": draw(S.seeds),
+        "sparse_u": sparse_u,
     }
     if dying:
         # both parameters trained, more communities than the data support, a prior on u
@@ -488,12 +534,33 @@ def model_max_size(case, N):
     return D, D
 
 
+def _prior_arg(p, rows=None):
+    """A float, or an array of rates (for u: one row per node of the hypergraph)."""
+    if not isinstance(p, list):
+        return p
+    return np.array(p if rows is None else p[:rows], dtype=float)
+
+
+def _in_support(case, data):
+    """Sparse supplied memberships of an assortative model: every observed hyperedge (row
+    indices) must contain two nodes sharing a community, or its rate is 0 for every w."""
+    if not (case.get("sparse_u") and case["assortative"]):
+        return True
+    u, K = case["u"], case["K"]
+    return all(any(u[i][k] > 0 and u[j][k] > 0 for a, i in enumerate(e) for j in e[a + 1:]
+                   for k in range(K)) for e in data)
+
+
+def _prior_label(p):
+    return "array" if isinstance(p, list) else "%g" % p
+
+
 def new_model(case, N, seed=None):
     """Fresh model from the case (fresh arrays for the supplied parameters)."""
     from hypergraphx.communities.hy_mmsbm.model import HyMMSBM
     arg, _ = model_max_size(case, N)
     kw = {"assortative": case["assortative"], "max_hye_size": arg,
-          "u_prior": case["u_prior"], "w_prior": case["w_prior"],
+          "u_prior": _prior_arg(case["u_prior"], N), "w_prior": _prior_arg(case["w_prior"]),
           "seed": case["seed"] if seed is None else seed}
     u = w = None
     if case["u"] is not None:
@@ -511,8 +578,13 @@ def _classify_fit(case, ctx, N):
     ctx.label("labels:" + case["kind"], "supplied:" + case["supply"], "K=%d" % case["K"],
               "assortative" if case["assortative"] else "full w",
               "weighted" if case["weights"] is not None else "unweighted",
-              "max_hye_size:" + case["max_hye"], "w_prior=%g" % case["w_prior"],
-              "u_prior=%g" % case["u_prior"], "data max size %d" % data_max_size(case))
+              "max_hye_size:" + case["max_hye"], "w_prior=" + _prior_label(case["w_prior"]),
+              "u_prior=" + _prior_label(case["u_prior"]), "data max size %d" % data_max_size(case))
+    if case.get("sparse_u"):
+        ctx.label("sparse memberships (zeros in the supplied u)")
+        cols = list(zip(*case["u"]))
+        if any(sum(1 for x in c if x > 0) == 1 for c in cols):
+            ctx.label("community with a single member")
     used = {i for e in case["edges"] for i in e}
     if "n_iter" in case:
         ctx.label("n_iter >= 8" if case["n_iter"] >= 8 else "n_iter < 8")
@@ -522,6 +594,9 @@ def _classify_fit(case, ctx, N):
 
 def check_fit_fixed_params(case, ctx):
     h, nodes, row, data = build_data(case)
+    if not _in_support(case, data):
+        ctx.exclude("sparse supplied u, assortative: an observed hyperedge has rate 0 for every w")
+        return
     N = len(nodes)
     _classify_fit(case, ctx, N)
     model, u, w = new_model(case, N)
@@ -546,6 +621,9 @@ def check_fit_fixed_params(case, ctx):
 
 def check_fit_validity(case, ctx):
     h, nodes, row, data = build_data(case)
+    if not _in_support(case, data):
+        ctx.exclude("sparse supplied u, assortative: an observed hyperedge has rate 0 for every w")
+        return
     N = len(nodes)
     K = case["K"]
     _classify_fit(case, ctx, N)
@@ -580,6 +658,9 @@ def check_fit_max_size(case, ctx):
     data when the model was built with max_hye_size=None, and a supplied value is kept.  Every
     closed form above and the likelihood sum over 'all hyperedges up to the maximum size'."""
     h, nodes, row, data = build_data(case)
+    if not _in_support(case, data):
+        ctx.exclude("sparse supplied u, assortative: an observed hyperedge has rate 0 for every w")
+        return
     N = len(nodes)
     _classify_fit(case, ctx, N)
     model, u, w = new_model(case, N)
@@ -604,6 +685,9 @@ N_ITERS = list(range(1, 9))
 
 def check_em_ascent(case, ctx):
     h, nodes, row, data = build_data(case)
+    if not _in_support(case, data):
+        ctx.exclude("sparse supplied u, assortative: an observed hyperedge has rate 0 for every w")
+        return
     N = len(nodes)
     K = case["K"]
     _classify_fit(case, ctx, N)
@@ -622,19 +706,22 @@ def check_em_ascent(case, ctx):
             model.fit(h, n_iter=n, tolerance=case["tolerance"],
                       check_convergence_every=case["check_every"])
         W = np.asarray(model.w, dtype=float)
-        require(W.shape == (K, K) and np.isfinite(W).all() and (W >= 0).all(),
+        require(W.shape == (K, K) and np.isfinite(W).all() and (W >= -1e-12).all(),
                 lambda: "after fit(n_iter=%d) w = %r" % (n, W.tolist()), key="w_invalid")
-        wl = W.tolist()
+        wl = np.maximum(W, 0.0).tolist()
         L = log_likelihood(N, D_model, pair_table(u_rows, wl), data)
         require(math.isfinite(L),
                 lambda: "after fit(n_iter=%d) an observed hyperedge has Poisson rate 0 although "
                 "u > 0: w = %r" % (n, wl), key="zero_rate")
         plain.append(L)
-        if case["w_prior"] > 0:
-            L = L - case["w_prior"] * Cconst * math.fsum(x for r in wl for x in r)
+        wp = case["w_prior"]
+        if isinstance(wp, list):
+            L = L - Cconst * math.fsum(wp[k][q] * wl[k][q] for k in range(K) for q in range(K))
+        elif wp > 0:
+            L = L - wp * Cconst * math.fsum(x for r in wl for x in r)
         values.append(L)
     what = ("exact Poisson log-likelihood" if case["w_prior"] == 0 else
-            "MAP objective (log-likelihood - w_prior*C*sum(w))")
+            "MAP objective (log-likelihood - C*sum(w_prior*w))")
     ctx.trace = {"objective": what, "values": values, "plain_log_likelihood": plain,
                  "max_size_used": D_model}
     increased = False
